@@ -161,6 +161,19 @@ def gRun : Reader → List Hts.Spec.Flat.Op → Prog (List (Out × Reader))
   | r, op :: ops =>
     (gStep r op).bind fun p => (gRun p.1 ops).bind fun l => .done ((p.2, p.1) :: l)
 
+/-- As `gStep`, reporting the byte of a `ReadByte` only when there is no error (as `FReader.step` of
+Model/BgzfReaderFaults.lean does: a byte returned with an error is not data). -/
+def gStepF (r : Reader) : Hts.Spec.Flat.Op → Prog (Reader × Out)
+  | .read n => (gRead r n).bind fun q => .done (q.1, ⟨q.2.1, q.2.2⟩)
+  | .readByte => (gReadByte r).bind fun q => .done (q.1, ⟨if q.2.2 = none then [q.2.1] else [], q.2.2⟩)
+  | .seek o => (gSeek r o).bind fun q => .done (q.1, ⟨[], q.2⟩)
+  | .setBlocked b => .done (r.setBlocked b, ⟨[], none⟩)
+
+def gRunF : Reader → List Hts.Spec.Flat.Op → Prog (List (Out × Reader))
+  | _, [] => .done []
+  | r, op :: ops =>
+    (gStepF r op).bind fun p => (gRunF p.1 ops).bind fun l => .done ((p.2, p.1) :: l)
+
 /-! ### Running a program -/
 
 /-- The block a call installs when every load is the sequential one (on identities). -/
